@@ -320,7 +320,7 @@ func TestVerif_C07_Foreign(t *testing.T) {
 			MinSec: 1, MaxSec: 6,
 			Medias:    []string{"audio", "audio", "audio", "video", "video", "video", "application", "text", "message"},
 			AbsentDir: true, MidStyles: []string{"numeric", "numeric", "sparse", "token", "mixed", "zeropad"},
-			NoPlanBMids: c.Sem == 1, RemapPT: true, RemapExt: true, Unsupported: 5, PortZero: 12, SSRC: true,
+			NoPlanBMids: c.Sem == 1, RemapPT: true, RemapExt: true, Unsupported: 5, PortZero: 12, BundleOnly: 8, SSRC: true,
 		})
 		switch rapid.IntRange(0, 14).Draw(r, "bundleMode") {
 		case 0:
@@ -331,6 +331,7 @@ func TestVerif_C07_Foreign(t *testing.T) {
 				c.Offer.Sections[k].NoBdl = true
 			}
 		}
+		vfFamBFixBundleOnly(&c.Offer)
 		return c
 	}, vfC07Run)
 }
